@@ -138,6 +138,33 @@ func (v Val) ToGo() any {
 			out[kv.K] = kv.V.ToGo()
 		}
 		return out
+	case "tl": // typed slice ([]string, []int, []float64, []bool): S names the element kind
+		switch v.S {
+		case "int":
+			out := make([]int, len(v.L))
+			for i := range v.L {
+				out[i] = int(v.L[i].I)
+			}
+			return out
+		case "float":
+			out := make([]float64, len(v.L))
+			for i := range v.L {
+				out[i] = numVal(v.L[i])
+			}
+			return out
+		case "bool":
+			out := make([]bool, len(v.L))
+			for i := range v.L {
+				out[i] = v.L[i].B
+			}
+			return out
+		default:
+			out := make([]string, len(v.L))
+			for i := range v.L {
+				out[i] = v.L[i].S
+			}
+			return out
+		}
 	case "sl": // []string, the way url.Values delivers a repeated parameter
 		out := make([]string, len(v.L))
 		for i := range v.L {
@@ -177,6 +204,12 @@ func (v Val) String() string {
 			parts[i] = v.M[i].K + ":" + v.M[i].V.String()
 		}
 		return "{" + strings.Join(parts, ",") + "}"
+	case "tl":
+		parts := make([]string, len(v.L))
+		for i := range v.L {
+			parts[i] = v.L[i].String()
+		}
+		return "tl:" + v.S + "[" + strings.Join(parts, ",") + "]"
 	case "sl":
 		parts := make([]string, len(v.L))
 		for i := range v.L {
@@ -300,8 +333,14 @@ func canon(sb *strings.Builder, v reflect.Value, depth int) {
 	case reflect.Struct:
 		sb.WriteString("{")
 		t := v.Type()
-		for i := 0; i < v.NumField(); i++ {
-			if i > 0 {
+		// fields in name order: the same record may live in struct types that declare them in different orders
+		idx := make([]int, v.NumField())
+		for i := range idx {
+			idx[i] = i
+		}
+		sort.Slice(idx, func(a, b int) bool { return t.Field(idx[a]).Name < t.Field(idx[b]).Name })
+		for n, i := range idx {
+			if n > 0 {
 				sb.WriteString(",")
 			}
 			sb.WriteString(t.Field(i).Name + ":")
@@ -409,6 +448,22 @@ func Exotic(name string) any {
 		p := &i
 		pp := &p
 		return &pp
+	case "ptr_to_nil_ptr_struct":
+		var u *PubStruct
+		return &u
+	case "ptr_ptr_to_nil_map":
+		var m *map[string]any
+		pm := &m
+		return &pm
+	case "ptr_to_nil_ptr_string":
+		var sp *string
+		return &sp
+	case "ptr_to_nil_slice":
+		var sl []string
+		return &sl
+	case "ptr_to_nil_map":
+		var m map[string]any
+		return &m
 	case "ptr_map":
 		m := map[string]any{"a": "x", "name": "bob"}
 		return &m
@@ -493,4 +548,5 @@ var ExoticNames = []string{
 	"array", "array_empty", "chan", "func", "bad_utf8", "nul_string", "bytes", "rune", "str_slice", "int_slice",
 	"slice_of_maps", "slice_of_nil", "nested_empty_slices", "time_zero", "time_ptr", "duration", "error", "stringer_nilptr",
 	"struct_empty", "uintptr", "reflect_value",
+	"ptr_to_nil_ptr_struct", "ptr_ptr_to_nil_map", "ptr_to_nil_ptr_string", "ptr_to_nil_slice", "ptr_to_nil_map",
 }
